@@ -229,7 +229,7 @@ class Batch:
         self.seed = seed
         self.workers = workers or min(16, os.cpu_count() or 1)
         self.runs = runs
-        self.stride = max(1, stride or 1)
+        self.stride = stride or 1
         self.dump = dump
         self.run_digests = []
         self.t0 = _real_perf()
@@ -272,6 +272,8 @@ class Batch:
 
     def run(self):
         specs = self.m.plan(self.tier, self.seed)
+        if self.stride < 0:
+            self.stride = max(1, len(specs) // -self.stride)       # negative: 'about that many runs'
         pairs = list(enumerate(specs))[::self.stride]
         if self.runs is not None:
             pairs = pairs[:self.runs]
